@@ -390,6 +390,26 @@ impl Recorder {
     pub fn has_unknown(&self) -> bool {
         !self.inner.lock().unwrap().unknown.is_empty()
     }
+    pub fn has_any(&self) -> bool {
+        let g = self.inner.lock().unwrap();
+        !g.unknown.is_empty() || !g.known_hits.is_empty()
+    }
+    /// prints every recorded group (used by replay)
+    pub fn dump(&self) {
+        let g = self.inner.lock().unwrap();
+        for sig in &g.order {
+            let grp = &g.unknown[sig];
+            let v = &grp.first[0];
+            println!("  violated: clause={} call={} x{}\n    {}", v.clause, v.call, grp.count, v.detail.replace('\n', "\n    "));
+            if let Some(p) = &v.panic {
+                println!("    panic: {} at {}:{} [{}]", p.msg, p.file, p.line, p.text);
+            }
+        }
+        for (i, (cnt, ex)) in g.known_hits.iter() {
+            let k = &self.known[*i];
+            println!("  known finding reproduced: clause={} call={} predicate={} x{} :: {}", k.clause, k.call, k.predicate, cnt, ex.as_ref().unwrap().detail.replace('\n', " | "));
+        }
+    }
 }
 
 fn fnv(s: &str) -> u64 {
